@@ -6,7 +6,7 @@ import ast
 import itertools
 from typing import Dict, List, Optional, Sequence, Set, Tuple
 
-from ..core import Unrecognised, call_name, calls_in, dotted, enclosing_def, facts, module_of, parent, qual, site, src, walk_local
+from ..core import origins, Unrecognised, call_name, calls_in, dotted, enclosing_def, facts, module_of, parent, qual, site, src, walk_local
 from ..dispatch import check_flow_arity, find_flow_tables, first_guard, resolve_handler
 from ..formulas import DUAL, LANG, QUANT_FIELDS, PropError, expand_classes, formula_classes, if_chain, isinstance_classes, prop_eval
 
@@ -130,6 +130,15 @@ def rule_n1(ctx):
     sneg = ctx.repo.func(LANG, "SMTFormula.__neg__", "C09.N1")
     rets = returns_of(sneg.body)
     c2 = f"{LANG}:SMTFormula.__neg__"
+    if len(rets) == 1:
+        deleg = [x for x in ast.walk(rets[0].value) if isinstance(x, ast.Call) and call_name(x) == "convert_smt_formula_to_nnf"]
+        if deleg:
+            d = deleg[0]
+            neg_arg = src(d.args[1]) if len(d.args) > 1 else next((src(k.value) for k in d.keywords if k.arg == "negate"), None)
+            ok = src(d.args[0]) == "self" and neg_arg == "True" and src(rets[0].value).replace(" ", "").endswith(".unwrap())") or src(rets[0].value).replace(" ", "").endswith(".unwrap()")
+            ctx.check(ok and src(d.args[0]) == "self" and neg_arg == "True", "N1-smt-neg", c2, "delegates to convert_smt_formula_to_nnf(self, negate=True)", site(d),
+                      f"SMT negation must be the NNF conversion of self under negate=True, found {src(d)}", "delegation with negate=True (its body is judged by N2/N11)")
+            return
     if len(rets) != 1 or not (isinstance(rets[0].value, ast.Call) and call_name(rets[0].value) == "SMTFormula"):
         raise Unrecognised("C09.N1", c2, "expected a single SMTFormula(...) construction")
     call = rets[0].value
@@ -663,6 +672,39 @@ def rule_n10(ctx, prefix="N10"):
         raise Unrecognised(f"C09.{prefix}", LANG, f"only {n} returns of quantifier substitution methods found")
 
 
+def rule_n11(ctx):
+    """Z3 simplification can remove variables (`not (x = x)` becomes False): whoever wraps a simplified Z3 term into an SMTFormula must pass only the variables that
+    still occur (SMTFormula.__init__ asserts the counts agree).  Sibling rule: convert_smt_formula_to_nnf filters by get_symbols; every other site must too."""
+    m = ctx.repo.module(LANG, "C09.N11")
+    n = 0
+    for q, fn in m.functions():
+        if not isinstance(fn, ast.FunctionDef):
+            continue
+        for c in calls_in(fn, include_nested=False):
+            if call_name(c) != "SMTFormula" or not c.args:
+                continue
+            first = c.args[0]
+            srcs = [first]
+            if isinstance(first, ast.Name):
+                srcs += [a.value for a in walk_local(fn) if isinstance(a, ast.Assign) and src(a.targets[0]) == first.id]
+            simplifying = any(isinstance(x, ast.Call) and call_name(x) in ("z3_push_in_negations", "z3.simplify") for e in srcs for x in ast.walk(e))
+            if not simplifying:
+                continue
+            n += 1
+            star = [a.value for a in c.args if isinstance(a, ast.Starred)]
+            construct = f"{LANG}:{q}"
+            if not star:
+                ctx.ok("N11-vars-after-simplification", construct, "no variables passed", site(c), "formula without free variables")
+                continue
+            flows = origins(fn, star[0])
+            filtered = any(o in ("get_symbols", "actual_symbols") or o.endswith("get_symbols") for o in flows)
+            ctx.check(filtered, "N11-vars-after-simplification", construct, f"variables of {src(first)[:40]} filtered by the symbols that are left", site(c),
+                      f"the simplified term `{src(first)[:50]}` is wrapped with the variables `{src(star[0])[:40]}` of the original formula: when simplification removes a variable "
+                      "(`not (q = q)` -> False) SMTFormula's consistency assertion fails - parse_isla('exists <var> q in start: not (q = q)') raises AssertionError", "filtered through get_symbols(...)")
+    if n < 1:
+        raise Unrecognised("C09.N11", LANG, "no SMTFormula construction over a simplified term found (expected convert_smt_formula_to_nnf)")
+
+
 def rule_n8(ctx):
     """Renaming / substitution maps are applied SIMULTANEOUSLY: no substitute_* method folds the map entry by entry over an accumulator
     (a chained map {v0 -> v1, v1 -> v2}, as ensure_unique_bound_variables produces, would collapse v0 and v1)."""
@@ -703,6 +745,7 @@ def run(ctx) -> str:
     ctx.guarded("N8", lambda: rule_n8(ctx))
     ctx.guarded("N9", lambda: rule_n9(ctx))
     ctx.guarded("N10", lambda: rule_n10(ctx))
+    ctx.guarded("N11", lambda: rule_n11(ctx))
     ctx.guarded("N7", lambda: rule_n7(ctx))
     ctx.guarded("N1", lambda: rule_n1(ctx))
     ctx.guarded("N2", lambda: rule_n2(ctx))
